@@ -224,6 +224,35 @@ pub fn run(ctx: &Ctx) -> Report {
             );
         }
     }
+    // 'und' is for unknown LANGUAGES only: when some identifier of a primary language has a tag, every
+    // identifier of that language has one (the bare language tag at least), and they all share the language part
+    for primary in 0u16..1024 {
+        let tags: Vec<(u16, String)> = (0u16..64).map(|sub| primary | (sub << 10)).map(|c| (c, Language::from_code(c).tag().to_string())).collect();
+        let known: Vec<&(u16, String)> = tags.iter().filter(|(_, t)| t != "und").collect();
+        if known.is_empty() {
+            continue;
+        }
+        let lang_part = |t: &str| t.split('-').next().unwrap_or("").to_string();
+        let lp = lang_part(&known[0].1);
+        for (c, t) in &tags {
+            if t == "und" {
+                rep.violation(
+                    format!("C17/und-for-known-language/{}", lp),
+                    format!("identifier {} (primary language {} = {:?}, sublanguage {}) has the tag \"und\" although the language is known; the bare language tag is documented for an unknown sublanguage", c, primary, lp, c >> 10),
+                    json!({"kind": "code", "code": c}),
+                );
+                break;
+            }
+            if lang_part(t) != lp {
+                rep.violation(
+                    format!("C17/language-part-differs/{}", lp),
+                    format!("identifiers of primary language {} carry tags of different languages: {:?} and {:?} (code {})", primary, known[0].1, t, c),
+                    json!({"kind": "code", "code": c}),
+                );
+                break;
+            }
+        }
+    }
     for &(code, tag) in PINNED.iter() {
         let got = Language::from_code(code).tag().to_string();
         let back = Language::from_tag(tag).code();
